@@ -358,14 +358,15 @@ Theorem decode_enc_frame cfg d p dictID bs rest e' x' :
               (N.min (N.min (frame_window p (lenN (blocks_content bs))) BLOCK_MAX) (c_block_max cfg))
               (dict_entropy d) (x_init d) bs = Ok (e', x') ->
   ext (x_init d) x' (blocks_content bs) ->
-  exists t, decode_frame cfg d (enc_frame p dictID bs ++ rest) = Ok (blocks_content bs, t, rest).
+  exists t, decode_frame cfg d (enc_frame p dictID bs ++ rest) = Ok (blocks_content bs, t, rest) /\
+            fh_expected p (lenN (blocks_content bs)) dictID (ft_header t).
 Proof.
   intros Hp Hne Hml Hwin Hd Hspec Hext.
   set (content := blocks_content bs) in *.
   unfold decode_frame, enc_frame. fold content. rewrite <- !app_assoc, Hml.
   destruct (parse_enc_fheader p (lenN content) dictID
               (enc_blocks bs ++ (if fp_checksum p then write_le 4 (N.land (xxh64 content 0) 4294967295) else []) ++ rest) Hp)
-    as (fh & Hparse & Ew & Es & Ec & Edid & Efcs & Esz).
+    as (fh & Hparse & Hexp). pose proof Hexp as (Ew & Es & Ec & Edid & Efcs & Esz).
   rewrite Hparse. cbn [bind]. fold (frame_window p (lenN content)) in Ew. rewrite Ew.
   destruct (N.leb_spec (frame_window p (lenN content)) (c_window_max cfg)) as [_|]; [|lia]. cbn [guard bind].
   (* dictionary *)
@@ -391,8 +392,8 @@ Proof.
   destruct (fp_checksum p).
   - rewrite read_le_write_le.
     2:{ change 4294967295 with (N.ones 32). rewrite N.land_ones. apply N.mod_lt. discriminate. }
-    cbn [of_opt bind fst snd]. rewrite N.eqb_refl, orb_true_r. cbn [guard bind]. eexists. reflexivity.
-  - cbn [app bind]. eexists. reflexivity.
+    cbn [of_opt bind fst snd]. rewrite N.eqb_refl, orb_true_r. cbn [guard bind]. eexists. split; [reflexivity|exact Hexp].
+  - cbn [app bind]. eexists. split; [reflexivity|exact Hexp].
 Qed.
 
 (* every list of raw / RLE blocks: the frame decodes to the concatenated content, whatever follows it *)
@@ -406,6 +407,8 @@ Theorem decode_enc_frame_simple cfg d p dictID bs rest :
   exists t, decode_frame cfg d (enc_frame p dictID bs ++ rest) = Ok (blocks_content bs, t, rest).
 Proof.
   intros Hp Hne Hs Hf Hml Hw Hd.
+  cut (exists t, decode_frame cfg d (enc_frame p dictID bs ++ rest) = Ok (blocks_content bs, t, rest) /\
+                 fh_expected p (lenN (blocks_content bs)) dictID (ft_header t)); [intros (t & H & _); eauto|].
   destruct (blocks_spec_simple (c_strict_window cfg) (frame_window p (lenN (blocks_content bs)))
               (N.min (N.min (frame_window p (lenN (blocks_content bs))) BLOCK_MAX) (c_block_max cfg))
               bs (dict_entropy d) (x_init d) (x_init_inv d) Hs Hf) as (x' & Hspec & Hext).
